@@ -5,11 +5,12 @@ import Marwood.Lemmas.ListExtC04
 import Marwood.Lemmas.ListExtC05
 import Marwood.Lemmas.ListExtC18
 import Marwood.Lemmas.ListExtC12
+import Marwood.Lemmas.ListExtC06
 
 /-!
 # The machine-level property theorems at REAL builtins: no `Ext…` hypothesis left
 
-Every machine-level theorem of C03 / C13 / C07 / C04 / C12 / C18 is parametric in `ext : ExtOps` (the generic Rust
+Every machine-level theorem of C03 / C13 / C07 / C04 / C12 / C18 / C06 (T06.6) is parametric in `ext : ExtOps` (the generic Rust
 builtins, `eval`'s compiler, VPUSH) and assumes law structures about it. Here they are instantiated at
 `listExtWith eqTag` (`Vm/ListExt.lean`: `car cdr cons set-car! set-cdr! eq? eqv? null? pair? not boolean? char?
 string? symbol? number? vector? procedure?` modelled over the concrete heap as the Rust code does; `apply` and
@@ -23,8 +24,11 @@ string? symbol? number? vector? procedure?` modelled over the concrete heap as t
 | `ExtCodePlain` | `listExtWith_codePlain` | Lemmas/ListExtCode.lean |
 | `ExtAllocOnly` | `listExtWith_allocOnly` | Lemmas/ListExtCode.lean |
 | `ExtProc` (with the premise `LF h`, added for this instance: without it the law is false of `cons`, `extProc_needs_lf`) | `listExtWith_proc` | Lemmas/ListExtProc.lean |
+| `ExtNoPanic` (T06.6; holds without the premises the law offers: no builtin of the table has a panic site) | `listExtWith_noPanic` | Lemmas/ListExtNoPanic.lean |
+| `ExtEnvInv` = `ExtTaint` + `ExtFit` (T06.6; as stated, no premise added) | `listExtWith_envInv` | Lemmas/ListExtEnv.lean |
 
-What remains in the statements: `VmOk` and `PInv` of the INITIAL state and the physical bound `SizeBounded`. The
+What remains in the statements: `VmOk` and `PInv` of the INITIAL state and the physical bound `SizeBounded` (for the
+T06.6 corollaries of Lemmas/ListExtC06.lean also `NPInv` and `EnvInv` of the initial state). The
 statements are about programs that really cons and mutate; `eqTag` (payload equality of two number / two string
 tags) is arbitrary. The demo (`Lemmas/ListExtDemo.lean`) discharges every hypothesis for a program that runs
 `cons`, `set-car!` and `car`.
